@@ -403,6 +403,21 @@ def r3(R, tus):
             R.check(all(l < comp[0].line for l in news), "C11.R3", file, comp[0].line, fname, "compress after the last dset_new", "labels are created after the set was compressed")
             rel = [y for st, y in cfront.all_exprs(f.body) if y.k == "asg" and y.op == "=" and any(z.k == "idx" and estr(z.a[0]) == T for z in ewalk(y.a[1])) and (y.line or 0) > comp[0].line]
             R.check(len(rel) >= 1, "C11.R3", file, comp[0].line, fname, "labels rewritten through %s[...] after compress" % T, "provisional labels are returned to the caller")
+    # dset_find returns a ROOT: the walk up the parent links is iterated (recursion, or a loop that runs while S[x] != x).  A fixed number
+    # of steps returns a non-root for chains longer than that, and dset_link then re-parents the non-root: a recorded union is lost
+    df = cfront.find_func(tus, "dset_find", BL)
+    sname, xname = df.params[1].name, df.params[0].name
+    rec = [x for st, x in cfront.all_exprs(df.body) if x.k == "call" and x.name == "dset_find"]
+    loops = [st for st in swalk(df.body) if st.k in ("while", "do", "for") and st.cond is not None and
+             any(y.k == "idx" and estr(y.a[0]) == sname for y in ewalk(st.cond))]
+    rec_ok = any(len(x.a) == 2 and any(y.k == "idx" and estr(y.a[0]) == sname for y in ewalk(x.a[0])) for x in rec)
+    R.check(rec_ok or bool(loops), "C11.R3", BL, df.line, "dset_find", "the walk to the root is iterated (%s)" % (
+        "recursion on S[x]" if rec_ok else ("loop on %s" % estr(loops[0].cond) if loops else "no recursion, no loop")),
+        "dset_find follows a fixed number of parent links: for a chain of three or more links (labels merged from right to left on successive "
+        "rows, then joined to an older label) it returns a label that is not a root, dset_link re-parents that label and the union with its "
+        "old root is lost - one connected object gets two labels")
+    rets = [st for st in swalk(df.body) if st.k == "return" and st.e is not None and not (st.e.k == "int")]
+    R.shape(len(rets) >= 1, "C11.R3", BL, "dset_find", "the return of the root")
     # dset_link: higher points to lower
     lk = cfront.find_func(tus, "dset_link", BL)
     sts = crules.stores_to_param(lk, lk.params[0].name)
